@@ -40,6 +40,12 @@ def run(rep, ctx):
         borrow(rep, c05.r1_same_quantity, ctx, "C05.R1", "C03.R6")
     except AnalysisError as e:
         rep.error("C03.R6", str(e))
+    from . import c20
+    rep.rule("C03.R7", "the joined composing units that decide compatibility sum the exponents of every entry per unit (shared with C20.R5)")
+    try:
+        borrow(rep, c20.r5_sources, ctx, "C20.R5", "C03.R7", keep=lambda o: o.key.startswith("joined-exponents"))
+    except AnalysisError as e:
+        rep.error("C03.R7", str(e))
     rep.not_decided += [
         "the numeric result of a+b / a-b (arithmetic on runtime values)",
         "false rejection of dimension-compatible operands written with different symbols (m.m + m2)",
